@@ -229,14 +229,16 @@ def _run_start_marker(ctx, chk):
         except ValueError as exc:
             chk.indeterminate("C01.O3", where_of(f, cs[0]), "start marker element not evaluable: %s" % exc)
             return
-        if got != want:
+        # a mark at a False element is harmless (its label is reset to 0 afterwards): only True elements matter
+        care = [env["v0"], env["v1"], env["v2"]]
+        if any(c and g != w for c, g, w in zip(care, got, want)):
             bad = (env, got, want)
             break
     desc = "[%s]" % ", ".join(_show_elem(e) for e in elems[:3])
     chk.ob("C01.O3", bad is None, where_of(f, cs[0]),
            "start marker elements 0..2 = %s%s" % (desc, "" if bad is None else "; for %s it is %s instead of %s" % (
                {k: v for k, v in bad[0].items()}, bad[1], bad[2])),
-           "[v0, v1 and not v0, v2 and not v1]: a run that begins at index 0 is marked, whatever the last element is",
+           "at every True element: marked iff its predecessor is False or it is element 0 (marks at False elements are reset anyway)",
            key="get_true_interval_masks|start-marker",
            why="with a constant (or wrapped-around) first element a leading True run is numbered 0 = 'not in a run' and the helper's own assertion fires (a record starting in heavy rain)")
     _no_run_label(ctx, chk, f, flow, mod)
@@ -331,6 +333,8 @@ def _first_elems(mod, e, bv):
                         for c in part.elts:
                             if isinstance(c, ast.Constant) and isinstance(c.value, (int, bool)):
                                 out.append(("c", int(c.value)))
+                            elif isinstance(c, ast.UnaryOp) and isinstance(c.op, ast.USub) and isinstance(c.operand, ast.Constant):
+                                out.append(("c", -int(c.operand.value)))
                             elif isinstance(c, ast.Subscript):
                                 out.append(scalar(c))
                             else:
